@@ -55,7 +55,7 @@ def main():
     rnd = os.environ.get("VET_ROUND", "1")
     wt = f"/tmp/wt/{prop}" if rnd == "1" else f"/tmp/wt{rnd}/{prop}"
     src = f"/tmp/wt_out/{prop}/{x}" if rnd == "1" else f"/tmp/wt_out{rnd}/{prop}/{x}"
-    keep_as = x if rnd == "1" else {"a": "c", "b": "d"}.get(x, x) if rnd == "2" else {"a": "e", "b": "f"}.get(x, x) if rnd == "3" else {"a": "g", "b": "h"}.get(x, x) if rnd == "4" else {"a": "i", "b": "j"}.get(x, x) if rnd == "5" else {"a": "k", "b": "l"}.get(x, x) if rnd == "6" else {"a": "m", "b": "n"}.get(x, x) if rnd == "7" else {"a": "o", "b": "p"}.get(x, x) if rnd == "8" else {"a": "q", "b": "r"}.get(x, x) if rnd == "9" else {"a": "s", "b": "t"}.get(x, x) if rnd == "10" else {"a": "u", "b": "v"}.get(x, x) if rnd == "11" else {"a": "w", "b": "x"}.get(x, x) if rnd == "12" else {"a": "y", "b": "z"}.get(x, x) if rnd == "13" else x + rnd
+    keep_as = x if rnd == "1" else {"a": "c", "b": "d"}.get(x, x) if rnd == "2" else {"a": "e", "b": "f"}.get(x, x) if rnd == "3" else {"a": "g", "b": "h"}.get(x, x) if rnd == "4" else {"a": "i", "b": "j"}.get(x, x) if rnd == "5" else {"a": "k", "b": "l"}.get(x, x) if rnd == "6" else {"a": "m", "b": "n"}.get(x, x) if rnd == "7" else {"a": "o", "b": "p"}.get(x, x) if rnd == "8" else {"a": "q", "b": "r"}.get(x, x) if rnd == "9" else {"a": "s", "b": "t"}.get(x, x) if rnd == "10" else {"a": "u", "b": "v"}.get(x, x) if rnd == "11" else {"a": "w", "b": "x"}.get(x, x) if rnd == "12" else {"a": "y", "b": "z"}.get(x, x) if rnd == "13" else {"a": "za", "b": "zb"}.get(x, x) if rnd == "14" else x + rnd
     patch, demo = os.path.join(src, "patch.diff"), os.path.join(src, "demo.py")
     env = dict(os.environ, PYTHONPATH=wt)
     rep = {"property": prop, "variant": x}
